@@ -878,7 +878,16 @@ extractSHRT (
     Vec3<T>&           t,
     bool               exc /* = true */)
 {
-    return extractSHRT (mat, s, h, r, t, exc, r.order ());
+    //
+    // The Vec3 overload returns the angles as an XYZ-layout vector;
+    // an Euler object stores them in the order's own slots.
+    //
+
+    Vec3<T> rXYZ;
+    if (!extractSHRT (mat, s, h, rXYZ, t, exc, r.order ())) return false;
+
+    r.setXYZVector (rXYZ);
+    return true;
 }
 
 template <class T>
